@@ -206,9 +206,16 @@ def run_call(w, name):
                 r = em.FluentExp(w.ff, [w.s])
             elif i == 2:  # the same, below another node
                 r = em.Or(em.Not(em.FluentExp(w.ff, [w.s])), w.b)
-            else:         # the type checker divides by the constant divisor 3 - 3
+            elif i == 3:  # the type checker divides by the constant divisor 3 - 3 (below another node)
                 r = em.LE(em.Div(w.x, em.Minus(3, 3)), 2)
-            return ("ok", "expr+type", (skey(r), tkey(r.type)))
+            else:         # the same with the rejected node on top
+                r = em.Div(w.x, em.Minus(3, 3))
+            # a node that the constructor hands out has a type: constructing and typing are told apart
+            try:
+                t = tkey(r.type)
+            except _expected_exceptions() as ex:
+                t = ("type-raises", type(ex).__name__)
+            return ("ok", "expr+type", (skey(r), t))
         raise ValueError(name)
     except _expected_exceptions() as ex:
         return ("raise", type(ex).__name__)
@@ -255,7 +262,7 @@ def h_history(ctx, pool, n_calls, first=None, sym=True, sigmas=(2, 3, 4, 7, 12))
     ctx.note("history-failed", failed)
 
 
-FAILING_FIRST = ["sub:0:0", "sub:1:1", "sub:8:1", "simp:2", "simp:3", "ev:0", "ev:7", "qr:2", "build:1", "build:2", "build:3"]
+FAILING_FIRST = ["sub:0:0", "sub:1:1", "sub:8:1", "simp:2", "simp:3", "ev:0", "ev:7", "qr:2", "build:1", "build:2", "build:3", "build:4"]
 # substitutions that put the POINT type [c - sigma, c - sigma] under a Div make TypeChecker.walk_div divide a float by a symbolic int
 # (a floating-point solver query that times out): those calls run with concrete sigma only (direct shards)
 CONCRETE_ONLY = set()
@@ -271,6 +278,7 @@ POOLS = {
     "build:1": ["build:1", "build:2", "sub:8:1", "sub:1:1", "type:8", "simp:8", "build:0"],
     "build:2": ["build:2", "build:1", "sub:1:1", "simp:1", "sub:9:2", "type:0", "fl:6"],
     "build:3": ["build:3", "build:0", "sub:0:0", "simp:0", "type:4", "sub:4:2", "simp:9"],
+    "build:4": ["build:4", "build:3", "build:0", "simp:0", "type:4", "sub:4:2", "simp:9"],
 }
 NOFAIL_POOL = ["simp:0", "simp:9", "sub:0:3", "sub:9:2", "sub:4:3", "type:0", "fv:5", "fl:0", "qr:5", "qr:6", "ev:9", "ev:5", "build:0"]
 
